@@ -24,6 +24,7 @@ RULE = (
     "check from another task, check outside a task, enter/leave scope}; non-trivial = the injection lands while the "
     "victim is inside >=1 scope (A) or a check after >=1 request (B); distinct = distinct program / script"
 )
+RULE += '; check_cancellation is also asked inside the handler of a delivered CancelledError; disposables may spawn a task while entering'
 LEVEL_TEXT = (
     "Exhaustive single-fault injection: asyncio delivers a cancel to any task that is not done, and the generated "
     "programs never catch it, so 'not done at injection => task ends cancelled and every task it spawned in its scopes "
@@ -226,6 +227,14 @@ def run_check(case) -> Outcome:
                     # the script's own 'catch': delivery of a request; the request stays pending until uncancel()
                     must_deliver["v"] = False
                     obs.append(("caught", None, None, me.cancelling()))
+                    # asked from INSIDE the handler of the delivered CancelledError (cleanup code, a finally block, the
+                    # __exit__ of something used in the body): the request is as pending there as after the handler
+                    try:
+                        ctx.check_cancellation()
+                        raised = False
+                    except asyncio.CancelledError:
+                        raised = True
+                    obs.append(("check-in-handler", pending > 0, raised, me.cancelling()))
             while stack:
                 try:
                     await stack.pop().__aexit__(None, None, None)
@@ -261,6 +270,12 @@ def run_check(case) -> Outcome:
             out.violate(
                 "check",
                 f"C07.check/{'does-not-raise-after-request' if expect else 'raises-without-request'}",
+                f"script={script}: pending request expected={expect}, check raised={raised}, task.cancelling()={cancelling}",
+            )
+        if kind == "check-in-handler" and expect != raised:
+            out.violate(
+                "check",
+                f"C07.check/{'does-not-raise' if expect else 'raises-without-request'}-while-the-cancellation-is-being-handled",
                 f"script={script}: pending request expected={expect}, check raised={raised}, task.cancelling()={cancelling}",
             )
         if kind == "other" and raised:
